@@ -21,6 +21,11 @@ def main() -> int:
         seed = int(os.environ.get("VERIF_SEED", "0"))
     except ValueError:
         seed = 0
+    import logging
+    import warnings
+
+    warnings.filterwarnings("ignore")
+    logging.disable(logging.WARNING)
     mod = importlib.import_module(f"harness.{a.pid.lower()}")
     if a.replay:
         case = json.load(open(a.replay))
